@@ -96,6 +96,28 @@ SEEDS = [0, 1, -1, 7, -12345, 2 ** 40 + 7, 10 ** 30, "seed", "", "0", 3.5, 0.0, 
 # ------------------------------------------------------------------------------------------
 # generation
 # ------------------------------------------------------------------------------------------
+# seeds for the cross-process rebuilds: strings first (their hash() differs from process to process), then numbers
+XPROC_SEEDS = ["seed", "", "0", "another seed", 7, 3.5, -12345]
+
+_XPROC_SCRIPT = r"""
+import sys, json
+sys.path.insert(0, sys.argv[1]); sys.path.insert(1, sys.argv[2])
+from fvmon import env
+env.setup_import_path(); env.assert_repo_is_under_test()
+from fibertree import Fiber, Tensor
+from fvmon.observe import spec_of
+c = json.loads(sys.argv[3])
+dens = c["density"]
+if c["via"] == "fiber":
+    o = Fiber.fromRandom(list(c["shape"]), dens, c["interval"], seed=c["seed"], default=c["default"])
+else:
+    o = Tensor.fromRandom(rank_ids=c["ids"], shape=list(c["shape"]), density=dens, interval=c["interval"], seed=c["seed"],
+                          name=c.get("name", ""), default=c["default"])
+    o = o.__dict__.get("_root")
+print("SPEC=" + json.dumps(spec_of(o)))
+"""
+
+
 def _dims_upto(maxprod, maxdepth=4, maxext=4):
     out = []
     for d in range(1, maxdepth + 1):
@@ -210,6 +232,12 @@ def generate(rng, tier, shard, nshards, mon):
         yield _rand_yaml_case(rng)
     for _ in range(2400 * scale // nshards):
         yield _rand_random_case(rng)
+    # the same seed in another interpreter process (another string-hash salt): every shard asks for a few such rebuilds
+    for j in range(2 * scale):
+        c = _rand_random_case(rng)
+        c["seed"] = XPROC_SEEDS[(shard + j) % len(XPROC_SEEDS)]
+        c["xproc"] = 1 + (shard * 7 + j) % 1000
+        yield c
 
 
 def _rand_dims(rng, maxdepth=4, maxext=4, maxprod=64):
@@ -825,6 +853,29 @@ def _run_random(case, mon):
     mon.check(_same(sa, sb), f"{op}:not-reproducible",
               f"{op}(shape={shape}, density={density}, interval={interval}, seed={seed!r}, default={default!r}) "
               f"gave {sa} and then {sb} from a different global RNG state")
+    if case.get("xproc") is not None:
+        import json as _json
+        import os as _os
+        import subprocess as _sp
+        from fvmon import env as _env
+        e = dict(_os.environ)
+        e["PYTHONHASHSEED"] = str(case["xproc"])
+        arg = dict(case)
+        arg["ids"] = ids
+        try:
+            pr = _sp.run([_env.PY, "-B", "-c", _XPROC_SCRIPT, _env.repo_path(), _env.VERIF, _json.dumps(arg)],
+                         capture_output=True, text=True, timeout=300, env=e)
+            line = [ln for ln in pr.stdout.splitlines() if ln.startswith("SPEC=")]
+        except _sp.TimeoutExpired:
+            line = None
+        if not line:
+            mon.count("xproc_rebuilds_inconclusive")      # the child did not answer (loaded machine): no verdict from this case
+        else:
+            sc = _json.loads(line[0][5:])
+            mon.count("xproc_rebuilds")
+            mon.check(_same(_json.loads(_json.dumps(sa)), sc), f"{op}:not-reproducible:across-processes",
+                      f"{op}(shape={shape}, density={density}, interval={interval}, seed={seed!r}, default={default!r}) gave {sa} here and "
+                      f"{sc} in another interpreter process (PYTHONHASHSEED={case['xproc']})")
     stored_any = False
     for root in results:
         probs = WF(root)
